@@ -8,6 +8,7 @@ import (
 	"flag"
 	"fmt"
 	"os"
+	"os/exec"
 	"runtime/pprof"
 	"strconv"
 	"strings"
@@ -288,6 +289,25 @@ func checkJSON(m *fieldmask.FieldMask, steps []string, aps [][]string, selOK boo
 // padded with trailing blanks to one length, copied into one of a few long-lived buffers, and decoded from there).
 // Each answer must be the mask UnmarshalJSON builds from the same bytes.
 func checkCache(c *Case) []fail {
+	if !inChild {
+		// the caches are process-wide: every evaluation (run, shrinking, replay) starts from empty caches in a child
+		js, _ := json.Marshal(c)
+		cmd := exec.Command(os.Args[0], "childcache")
+		cmd.Stdin = bytes.NewReader(js)
+		out, err := cmd.Output()
+		if err != nil {
+			panic("c14 childcache: " + err.Error())
+		}
+		var got []struct{ Key, What, Expected, Observed string }
+		if err := json.Unmarshal(out, &got); err != nil {
+			panic("c14 childcache output: " + err.Error())
+		}
+		var fs []fail
+		for _, g := range got {
+			fs = append(fs, fail{g.Key, g.What, g.Expected, g.Observed})
+		}
+		return fs
+	}
 	var fs []fail
 	n := 0
 	docs := make([][]byte, len(c.Docs))
@@ -746,7 +766,7 @@ func run(dir string, seed uint64, tier string) error {
 		g := &pathGen{r: rn.r, w: w}
 		for s := 0; s < nScen; s++ {
 			rn.scenario(w, g, nq)
-			if s%15 == 14 {
+			if s%30 == 29 {
 				rn.cacheHistory(w)
 			}
 		}
@@ -890,6 +910,18 @@ func main() {
 		err = replay(*file)
 	case "child":
 		err = child()
+	case "childcache":
+		inChild = true
+		var c Case
+		if err = json.NewDecoder(os.Stdin).Decode(&c); err == nil {
+			type o struct{ Key, What, Expected, Observed string }
+			res := []o{}
+			for _, f := range checkCache(&c) {
+				res = append(res, o{f.key, f.what, fmt.Sprint(f.expected), fmt.Sprint(f.observed)})
+			}
+			js, _ := json.Marshal(res)
+			fmt.Println(string(js))
+		}
 	default:
 		err = fmt.Errorf("usage: c14 extract|run|replay")
 	}
